@@ -142,6 +142,13 @@ static Error issue(BaseEmitter* e, CodeHolder& code, const Call& c) {
       if (c.has_comment) e->set_inline_comment(c.comment.c_str());
       Error err;
       if (c.via == 1) err = e->_emit_op_array(c.inst_id, c.ops, c.nops);
+      else if (c.via == 2 && e->is_compiler()) {
+        // an annotated (indirect) jump: BaseCompiler::emit_annotated_jump() builds the JumpNode itself and has to carry
+        // the one-shot state (options, extra register, comment) like every other instruction call
+        BaseCompiler* cc = static_cast<BaseCompiler*>(e);
+        JumpAnnotation* ann = cc->new_jump_annotation();
+        err = ann ? cc->emit_annotated_jump(c.inst_id, c.ops[0], ann) : Error::kOutOfMemory;
+      }
       else {
         switch (c.nops) {
           case 0: err = e->_emitI(c.inst_id); break;
@@ -194,7 +201,9 @@ static Call payload_of(BaseNode* node, uint32_t reg_size) {
     InstNode* n = node->as<InstNode>();
     c.kind = KInst;
     c.inst_id = n->inst_id();
-    c.options = uint32_t(n->options());
+    // InstOptions::kReserved is the emitters' internal "take the slow path" bit (forced while a logger / diagnostic option
+    // is set); Builder::_emit strips it from ordinary nodes, emit_annotated_jump() keeps it - it is not part of the call
+    c.options = uint32_t(n->options()) & ~uint32_t(InstOptions::kReserved);
     c.nops = uint32_t(n->op_count());
     c.xr_sig = n->extra_reg().signature().bits();
     c.xr_id = n->extra_reg().id();
@@ -249,7 +258,7 @@ struct RecEmitter : public BaseEmitter {
     return err;
   }
   Error _emit(InstId inst_id, const Operand_& o0, const Operand_& o1, const Operand_& o2, const Operand_* op_ext) override {
-    Call c; c.kind = KInst; c.inst_id = inst_id; c.options = uint32_t(inst_options());
+    Call c; c.kind = KInst; c.inst_id = inst_id; c.options = uint32_t(inst_options()) & ~uint32_t(InstOptions::kReserved);
     c.xr_sig = extra_reg().signature().bits(); c.xr_id = extra_reg().id();
     c.ops[0].copy_from(o0); c.ops[1].copy_from(o1); c.ops[2].copy_from(o2);
     for (int i = 0; i < 3; i++) c.ops[3 + i].copy_from(op_ext[i]);
@@ -1064,7 +1073,14 @@ static void random_exec(FILE* out, vj::Rng& r, unsigned x, unsigned steps) {
   std::vector<int> detached;           // nodes that were removed or never inserted
   for (unsigned i = 0; i < n && ex.usable(); i++) {
     unsigned c = (unsigned)r.below(100);
-    if (c < 40) ex.emit(g.inst());
+    if (c < 3 && kind == "compiler" && su.arch == Arch::kX64) {
+      Call jc; jc.kind = KInst; jc.inst_id = x86::Inst::kIdJmp; jc.nops = 1; jc.via = 2;
+      jc.ops[0].copy_from(x86::gpq(unsigned(r.below(16))));
+      jc.options = r.chance(2, 3) ? uint32_t(InstOptions::kX86_Rex) : 0u;
+      if (r.chance(1, 3)) { jc.has_comment = true; jc.comment = "annotated"; }
+      ex.emit(jc);
+    }
+    else if (c < 40) ex.emit(g.inst());
     else if (c < 48) {                                   // bind: a label not bound yet (in the model)
       std::vector<uint32_t> free_;
       for (uint32_t l = 0; l < nl; l++) if (!ex.label_bound_in_model(l) && !bound[l]) free_.push_back(l);
